@@ -1,5 +1,6 @@
 """C01 — applied writes survive crash/restart exactly once: structural clauses."""
 from .util import *
+import json
 from ..callgraph import CallGraph
 
 EXPLANATION = """
@@ -21,8 +22,8 @@ j) every L0 id allocation site (next_for_level(0) feeding queue_for_flush) is co
 Not decided: crash points between steps, WAL replay vs published segment duplication, buffered WAL prefix semantics, fsync actually reaching disk.
 Borrowed: C18.a (the event id is assigned before the WAL entry is built: recovery then reproduces the ids reads de-duplicate by, which is what makes an event present in both an unpruned log and a segment count once).
 """
-FLOOR = 14
-REQUIRED = ["C01.a", "C01.b1", "C01.b2", "C01.c", "C01.d", "C01.e", "C01.f", "C01.g", "C01.h", "C01.i", "C01.j", "C01.k", "C01.l"]
+FLOOR = 15
+REQUIRED = ["C01.a", "C01.b1", "C01.b2", "C01.c", "C01.d", "C01.e", "C01.f", "C01.g", "C01.h", "C01.i", "C01.j", "C01.k", "C01.l", "C01.m"]
 ASSUMPTIONS = ["tokio mpsc mailbox is FIFO", "WalHandle::append completing means the entry was handed to the WAL writer task"]
 
 FIVE = ["timestamp", "context_id", "event_type", "payload", "event_id"]
@@ -504,6 +505,74 @@ def run(ctx):
                             "%s allocates an L0 segment id (later used as WAL keep-from id) without the memtable being full: the WAL has not rotated" % k, None))
         return bad
     ctx.run("C01.j", "K11 SIB", "L0 rotation sites", "segment-id / WAL-log-id lockstep: L0 ids advance only when the memtable (and hence the WAL) rotates", j)
+
+    # ------------------------------------------------------------------ m
+    def m(inst):
+        """The WAL pruning bound is computed from a SEGMENT id (cleanup_up_to(segment_id + 1)) and compared with WAL LOG ids. That coupling is only
+        sound while both sequences advance together (C01.j, C01.k) AND start together: at start-up each must be seeded with knowledge of the other."""
+        ft = F.fn_exact("engine::core::write::flush_worker::FlushWorker::run::{closure#0}::{closure#0}")
+        cl = one(ft, r"WalCleaner::cleanup_up_to$")
+        L = ft.origins(cl.args[1])
+        # coupled: the bound is `x + 1` where x is the very value handed to Flusher::new as the segment id of this flush
+        fn_ = one(ft, r"Flusher::new$")
+        seg_leaves = set()
+        for a_ in fn_.args:
+            seg_leaves |= {l for l in ft.origins(a_) if l[0] in ("upvar", "param")}
+        coupled, seg_named = False, False
+        for l in L:
+            if l[0] == "binop" and l[1].startswith("Add"):
+                coupled = True
+                for st in ft.blocks[l[2]]["s"]:
+                    v = st.get("v")
+                    if v and v.get("r") == "bin" and v.get("op", "").startswith("Add"):
+                        ops = ft.origins(v["a"]) | ft.origins(v["b"])
+                        if {x for x in ops if x[0] in ("upvar", "param")} & seg_leaves:
+                            seg_named = True
+        if not (coupled and seg_named):
+            inst.sites.append("pruning bound no longer derives from the flushed segment's id: the id spaces are decoupled, seeds need not agree")
+            return []
+        bad = []
+        b = F.fn("ShardContext::new")
+        wh = one(b, r"WalHandle::new$")
+        ld = one(b, r"SegmentIdLoader::load$")
+        al = one(b, r"RangeAllocator::from_existing_ids$")
+        inst.sites += [sp(b, wh.bb), sp(b, ld.bb), sp(b, al.bb)]
+        seg_locals = set()
+        for c_ in (ld, al):
+            seg_locals.add(c_.dest[0])
+        # (1) does the WAL's first log id know about the segment ids?  (any argument of the WAL constructor / a later call on the WAL handle derived from the loader / allocator)
+        wal_args = set()
+        for c_ in b.calls:
+            if c_.cleanup or not re.search(r"wal::wal_handle::WalHandle::|wal::inner_wal_writer::", c_.nname):
+                continue
+            for a_ in c_.args:
+                wal_args |= wide_all(b, a_)
+        fl = set()
+        for x in seg_locals:
+            fl |= {l for l, _ in b.flow_forward([x])}
+        if not (wal_args & (fl | seg_locals)):
+            bad.append(("wal-seed-ignores-segments", "ShardContext::new starts the WAL numbering from the WAL directory alone (WalHandle::new gets nothing derived from the segment ids): after a clean shutdown pruned every log, numbering restarts at 0 below the next L0 id and cleanup_up_to(segment_id + 1) unlinks the log the writer has just rotated to", None))
+        # (2) does the L0 seed know about the WAL position?
+        wal_locals = {wh.dest[0]}
+        al_in = wide_all(b, al.args[0]) if al.args else set()
+        wl = set()
+        for x in wal_locals:
+            wl |= {l for l, _ in b.flow_forward([x])}
+        reads_wal_dir = any(re.search(r"wal", (b.local_name(x) or "")) for x in al_in)
+        if not (al_in & (wl | wal_locals)) and not reads_wal_dir:
+            bad.append(("l0-seed-ignores-wal", "ShardContext::new seeds the L0 allocator from the surviving segment directory names alone: once compaction has removed every L0 directory the next L0 id falls back below the WAL position, cleanup_up_to(segment_id + 1) never reaches the live logs and every restart replays (and aggregates count) their events again", None))
+        # (3) the L0 seed counts directories, not published segments
+        lb = F.fn("SegmentIdLoader::load")
+        fam = [lb] + [F.fn_exact(x) for x in F.find("^" + re.escape(lb.key) + r"::\{closure")]
+        lists_dir = any(c_.nname.endswith("fs::read_dir") for B in fam for c_ in B.calls if not c_.cleanup)
+        consults_index = any(re.search(r"SegmentIndex::|segment_index::", c_.nname) for B in fam for c_ in B.calls if not c_.cleanup)
+        if lists_dir and not consults_index:
+            # is the list intersected with segments.idx before it seeds the allocator?
+            consult_ctx = any(re.search(r"SegmentIndex::(load|open|read)", c_.nname) and (set(c_.dest) & al_in or c_.dest[0] in al_in) for c_ in b.calls if not c_.cleanup and c_.dest)
+            if not consult_ctx:
+                bad.append(("l0-seed-counts-unindexed-dirs", "SegmentIdLoader::load takes every numeric directory as a live segment without consulting segments.idx: the directory of a flush that crashed before publication shifts the next L0 id above the WAL position and the re-flush's cleanup unlinks the active log", None))
+        return bad
+    ctx.run("C01.m", "K11 SIB + K10 READS", "id lockstep at start-up (ShardContext::new)", "segment ids and WAL log ids start in step: each seed takes the other sequence into account", m)
 
 
 def _capacity_products(body):
